@@ -122,6 +122,9 @@ class LevyCopulaModel(Model):
         """Truncate all marginal measures"""
         for model, truncation in zip(self.models, truncations):
             model.truncate_levy_measure(truncations=truncation)
+        # the tail integrals must see the truncated measures as well
+        self._marginal_levy_measure = [model.levy_triplet.nu for model in self.models]
+        LevyCopulaModel.marginal_tail_integral.cache_clear()
 
     def x0_value(self):
         """Initial value"""
